@@ -226,7 +226,7 @@ func HarnessRestartEquiv() {
 // The periodic probing of restored targets is irrelevant to restart equivalence (and covered by C09/C17): the probe
 // loops are not started in this harness.
 //
-//verif:stub (*github.com/basecamp/kamal-proxy/internal/server.Target).BeginHealthChecks harness=HarnessRestartEquiv,HarnessSnapshotCrash,HarnessSnapshotOverlap,HarnessSnapshotOverlapDirected,HarnessRestoredCommands,HarnessRolloutRestart,HarnessRestartAfterRepeatedCommand
+//verif:stub (*github.com/basecamp/kamal-proxy/internal/server.Target).BeginHealthChecks harness=HarnessRestartEquiv,HarnessSnapshotCrash,HarnessSnapshotOverlap,HarnessSnapshotOverlapDirected,HarnessRestoredCommands,HarnessRolloutRestart,HarnessRestartAfterRepeatedCommand,HarnessSnapshotFirstSave,HarnessSnapshotIOError
 func stubBeginHealthChecksNoProbe(t *Target, c TargetStateConsumer) {
 	t.stateConsumer = c
 	t.becameHealthy = make(chan bool)
